@@ -238,6 +238,11 @@ def run(chk):
     chk.add_tlc(res2, "Palette_tiny (termination under fairness)")
     if not res2.ok:
         chk.tlc_violation(res2, "Palette_tiny")
+    if not quick:
+        resf = common.run_tlc("Palette", "Palette_full.cfg", timeout=3000, coverage=False)
+        chk.add_tlc(resf, "Palette_full (exhaustive: <=7 colours, indices {none,0..6}; no export)")
+        if not resf.ok:
+            chk.tlc_violation(resf, "Palette_full")
     recs = res.records
     if len(recs) < 1000:
         raise MachineryError(f"only {len(recs)} exported palette scenarios")
